@@ -166,6 +166,7 @@ def inlined(fx, fn, depth=3, stop=(), _seen=None, _cache={}):
     raw["inlined_rets"] = rets
     out = facts.Fn(raw, fn.crate)
     out.inlined_from = fn.path
+    out.fx = fx
     out.n_own = n_own
     if _seen is None:
         _cache[key] = out
